@@ -145,6 +145,7 @@ type ArgNode struct {
 	Name   string   `json:"name"`
 	VType  string   `json:"vtype"`
 	Slice  bool     `json:"slice,omitempty"`
+	Map    bool     `json:"map,omitempty"`    // a positional of type map[string]string: one key:value token, then the next positional
 	ReqTag string   `json:"reqTag,omitempty"` // the text of the required tag ("" none, "yes", "2", "1-3")
 	Desc   string   `json:"desc,omitempty"`
 	Base   int      `json:"base,omitempty"`
@@ -224,6 +225,7 @@ type FArg struct {
 	Name   S      `json:"name"`
 	VType  string `json:"vtype"`
 	Slice  bool   `json:"slice"`
+	Map    bool   `json:"map"`
 	Req    int    `json:"req"`
 	ReqMax int    `json:"reqMax"`
 	Desc   S      `json:"desc"`
@@ -378,10 +380,10 @@ func Flatten(t *Tree) *Decl {
 		for _, a := range c.Args {
 			r, m := parseReqTag(a.ReqTag)
 			init := a.Init
-			if !a.Slice && len(init) == 0 {
+			if !a.Slice && !a.Map && len(init) == 0 {
 				init = []string{zeroText(a.VType)}
 			}
-			fc.Args = append(fc.Args, FArg{Name: toS(a.Name), VType: a.VType, Slice: a.Slice, Req: r, ReqMax: m,
+			fc.Args = append(fc.Args, FArg{Name: toS(a.Name), VType: a.VType, Slice: a.Slice, Map: a.Map, Req: r, ReqMax: m,
 				Desc: toS(a.Desc), Base: base10(a.Base), Init: toSs(init)})
 		}
 		d.Cmds[ci-1] = fc
